@@ -144,6 +144,14 @@ def diff(
             for node in chain(source_nodes, target_nodes):
                 node._hash = None
 
+            # A cached ancestor of a diffed sub-tree must not outlive the hashes it was built from: a
+            # later edit inside the sub-tree stops invalidating at the first node without a cached hash
+            for root in (source, target):
+                ancestor = root.parent
+                while ancestor is not None and ancestor._hash is not None:
+                    ancestor._hash = None
+                    ancestor = ancestor.parent
+
     return edit_script
 
 
